@@ -85,9 +85,29 @@ func (g *G) propValue(d *ref.PropDef, zero bool) ref.Prop {
 func (g *G) props(scope int, cfg *Cfg) []ref.Prop {
 	t := g.T
 	var out []ref.Prop
-	density := t.Pick(3, 3, 1) // 0 sparse, 1 medium, 2 everything
+	density := t.Pick(3, 3, 1, 2) // 0 sparse, 1 medium, 2 everything, 3 exactly one single-valued property and nothing else
+	allowed := ref.AllowedIn(scope)
+	only := byte(0)
+	if density == 3 {
+		var cands []byte
+		for _, d := range allowed {
+			if d.ID != 0x26 && d.ID != 0x0B && (cfg.Spec || cfg.CanSet == nil || cfg.CanSet(scope, d.ID)) {
+				cands = append(cands, d.ID)
+			}
+		}
+		if len(cands) == 0 {
+			return nil
+		}
+		only = cands[t.Int(len(cands))]
+	}
 	for _, d := range ref.AllowedIn(scope) {
 		if !cfg.Spec && cfg.CanSet != nil && !cfg.CanSet(scope, d.ID) {
+			continue
+		}
+		if density == 3 {
+			if d.ID == only {
+				out = append(out, g.propValue(d, false))
+			}
 			continue
 		}
 		switch d.ID {
